@@ -154,6 +154,9 @@ def flatten(ck, ctx):
 
 
 def run(ck, ctx):
+    # the depfile is consulted on every successful run of a step that declares one (also with deps = msvc): TaskResult.discovered_deps sources
+    from . import C09 as R09
+    R09.showincludes(ck, ctx)
     C.adapter_census(ck, ctx, "flatten", ("depfile::", "task::", "smallmap::"))
     missing_empty(ck, ctx)
     parse_error(ck, ctx)
